@@ -152,7 +152,7 @@ Definition err_eqb (x y : err) : bool :=
      3  the forward went to a connection that is not the primary owner of the destination, or a copy went to a connection
         without a matching eavesdrop rule (C05)
      4  the NoReply errors are not exactly one per open call that ended by disconnect/timeout (C09)
-     5  an unrequested reply was refused with something other than AccessDenied, or the refusal changed... (C09)
+     5  an unrequested reply was refused with something other than AccessDenied (or NotSupported for fds) (C09)
      6  a call was passed on although its sender already had max_replies open calls, not counting the one this very
         message answers (C09 limit)
      7  destination has no owner but the message was not answered by NameHasNoOwner / ServiceUnknown (C05)
@@ -194,7 +194,7 @@ Definition oracle_step (cf : cfg) (tr : trace) (owner : option N) (eaves : list 
                    let others := length (filter (fun k => let '(a, _, _) := k in a =? c)
                                                 (filter (fun k => negb (key_eqb k (c, w, m_serial m)) && negb (key_eqb k (w, c, m_rserial m))) (open_keys T tr))) in
                    if err_eqb x ENoReply then 4
-                   else if unrequested then (if err_eqb x EAccessDenied then 0 else 5)
+                   else if unrequested then (if err_eqb x EAccessDenied || (err_eqb x ENotSupported && (0 <? m_nfds m)) then 0 else 5)
                    else if err_eqb x ENotSupported then (if 0 <? m_nfds m then 0 else 8)
                    else if err_eqb x EAccessDenied then (if wants_slot && is_open T tr c w (m_serial m) then 0 else 8)
                    else if err_eqb x ELimitsExceeded then (if wants_slot && (max_replies cf <=? N.of_nat others) then 0 else 8)
